@@ -291,13 +291,27 @@ impl Flow {
         }
     }
 
+    /// One instance under the given decision bytes.
     pub fn run(&self, bytes: &[u8], steps: &[Step]) -> Obs {
+        let mut got = None;
+        self.run_mode(Some(bytes), steps, &mut |o| got = Some(o.clone()));
+        got.expect("one instance")
+    }
+
+    /// All instances the repository's exhaustive mode enumerates; returns how many.
+    pub fn exhaustive(&self, steps: &[Step], mut each: impl FnMut(&Obs)) -> usize {
+        self.run_mode(None, steps, &mut each)
+    }
+
+    fn run_mode(&self, bytes: Option<&[u8]>, steps: &[Step], each: &mut dyn FnMut(&Obs)) -> usize {
         let sh = Mutex::new(Shared::default());
+        let each = Mutex::new(each);
         let kind = self.kind;
         macro_rules! body {
             ($send0:expr, $send1:expr, $next:expr, $collect:expr) => {{
                 let shr = &sh;
-                run_instance(&self.compiled, bytes, async || {
+                let eachr = &each;
+                let the_body = async || {
                     let mut sent: [Vec<Kv>; 2] = Default::default();
                     for st in steps {
                         match st {
@@ -324,13 +338,30 @@ impl Flow {
                     }
                     let rest: Vec<Rec> = $collect().await;
                     shr.lock().unwrap().recs.extend(rest);
-                })
+                };
+                match bytes {
+                    Some(b) => {
+                        let (verdict, log) = run_instance(&self.compiled, b, the_body);
+                        let s = std::mem::take(&mut *shr.lock().unwrap_or_else(|e| e.into_inner()));
+                        (eachr.lock().unwrap())(&Obs { verdict, log, recs: s.recs, sent_at: s.sent_at, awaited: s.awaited });
+                        1
+                    }
+                    None => {
+                        install_quiet_panic_hook();
+                        self.compiled.exhaustive(async || {
+                            *shr.lock().unwrap() = Shared::default();
+                            the_body().await;
+                            let s = std::mem::take(&mut *shr.lock().unwrap());
+                            (eachr.lock().unwrap())(&Obs { verdict: Verdict::Ok, log: String::new(), recs: s.recs, sent_at: s.sent_at, awaited: s.awaited });
+                        })
+                    }
+                }
             }};
         }
         let unkey = |v: &Vec<Kv>| -> Vec<i32> { v.iter().map(|x| x.1).collect() };
         let k0 = |v: Vec<i32>| -> Vec<Kv> { v.into_iter().map(|x| (0u8, x)).collect() };
         let flat = |v: Vec<(u8, Vec<i32>)>| -> Vec<Kv> { v.into_iter().flat_map(|(k, xs)| xs.into_iter().map(move |x| (k, x))).collect() };
-        let (verdict, log) = match &self.ports {
+        match &self.ports {
             Ports::Total(tx, rx) => body!(
                 |items: &Vec<Kv>| tx.send_many(unkey(items)),
                 |_items: &Vec<Kv>| (),
@@ -388,9 +419,7 @@ impl Flow {
                 async || Rec { batch: vec![(0, rx.next().await)], ..Default::default() },
                 async || rx.collect::<Vec<_>>().await.into_iter().map(|v| Rec { batch: vec![(0, v)], ..Default::default() }).collect()
             ),
-        };
-        let s = sh.into_inner().unwrap_or_else(|e| e.into_inner());
-        Obs { verdict, log, recs: s.recs, sent_at: s.sent_at, awaited: s.awaited }
+        }
     }
 }
 
@@ -442,4 +471,18 @@ pub fn per_key(v: &[Kv]) -> BTreeMap<u8, Vec<i32>> {
         m.entry(*k).or_default().push(*x);
     }
     m
+}
+
+/// A corpus flow compiled on first use.
+pub struct LazyFlow {
+    pub kind: FlowKind,
+    cell: std::cell::OnceCell<Flow>,
+}
+impl LazyFlow {
+    pub fn new(kind: FlowKind) -> Self {
+        LazyFlow { kind, cell: std::cell::OnceCell::new() }
+    }
+    pub fn get(&self) -> &Flow {
+        self.cell.get_or_init(|| build(self.kind))
+    }
 }
